@@ -143,6 +143,10 @@ func checkC02(c *Ctx) {
 		sb.WriteString("}")
 		add("wide-object-dupkeys", []byte(sb.String()))
 	}
+	// strings and keys with every escape kind at every window offset
+	for _, d := range escapeOffsetDocs(r, c.Thorough()) {
+		add("escape-offset", d)
+	}
 	// positional sweep
 	seeds := []string{`{"a":"x","a":"y","b":[1,2,{"c":null}]}`, `["é",-0.0,18446744073709551615,{"":""}]`}
 	for _, sd := range seeds {
